@@ -150,7 +150,7 @@ func OuterBase(base ssa.Value) ssa.Value {
 			return base
 		}
 		st, ok := Deref(in.X.Type()).Underlying().(*types.Struct)
-		if !ok || !st.Field(in.Field).Embedded() {
+		if !ok || !Grouping(st.Field(in.Field)) {
 			return base
 		}
 		if _, isStruct := st.Field(in.Field).Type().Underlying().(*types.Struct); !isStruct {
@@ -369,4 +369,23 @@ func Before(a, b ssa.Instruction) bool {
 		return InstrIndex(a) < InstrIndex(b)
 	}
 	return a.Block().Dominates(b.Block())
+}
+
+// Grouping reports whether field f only groups fields of the struct it is declared in: an embedded struct, or a
+// struct held by value whose type is an unexported (or anonymous) struct type of the same package. The fields
+// of such a part are treated as fields of the outer struct.
+func Grouping(f *types.Var) bool {
+	if _, ok := f.Type().Underlying().(*types.Struct); !ok {
+		return false
+	}
+	if f.Embedded() {
+		return true
+	}
+	switch t := f.Type().(type) {
+	case *types.Struct:
+		return true
+	case *types.Named:
+		return !t.Obj().Exported() && t.Obj().Pkg() == f.Pkg() && t.TypeArgs().Len() == 0
+	}
+	return false
 }
